@@ -100,9 +100,10 @@ def gr_5(ctx, rep):
     # _token_to_transition consults reserved_syntax_strings under type_.value.contains_syntax
     f = ctx.prog.func('parso/parser.py', '_token_to_transition')
     ok = False
+    from ..model import xnorm
     for n in ast.walk(f.node):
         if isinstance(n, ast.If) and 'contains_syntax' in norm(n.test):
-            ok = any(isinstance(s, ast.Subscript) and 'reserved_syntax_strings' in norm(s.value)
+            ok = any(isinstance(s, ast.Subscript) and 'reserved_syntax_strings' in xnorm(f.node, s.value)
                      for s in ast.walk(n))
     rep.ob('GR-5', 'parso/parser.py', '_token_to_transition', 'if type_.value.contains_syntax: reserved lookup',
            ok, 'reserved-string lookup is no longer guarded by contains_syntax')
@@ -639,6 +640,11 @@ def gr_8d(ctx, rep):
     # the target path: every node type literal _defined_names tests its argument against
     param = dn.params()[0]
     path_types = set()
+    type_texts = {'%s.type' % param}
+    for n in walk_own(dn.node):
+        if isinstance(n, ast.Assign) and len(n.targets) == 1 and isinstance(n.targets[0], ast.Name) \
+                and norm(n.value) == '%s.type' % param:
+            type_texts.add(n.targets[0].id)
     # ... in a branch that hands a *child* of that node back to _defined_names (so a Name directly below it is a target)
     for n in walk_own(dn.node):
         if not isinstance(n, ast.If):
@@ -647,7 +653,7 @@ def gr_8d(ctx, rep):
                        for b in n.body for x in ast.walk(b))
         t = n.test
         if recurses and isinstance(t, ast.Compare) and len(t.ops) == 1 and isinstance(t.ops[0], (ast.In, ast.Eq)) \
-                and norm(t.left) == '%s.type' % param:
+                and norm(t.left) in type_texts:
             vals = tc._const_strs(ctx, dn.mod, t.comparators[0])
             if vals:
                 path_types |= set(vals)
